@@ -66,6 +66,11 @@ MISSED = {
     "C06-10": "the step router had the same MAC on every port; it now has a different one per network",
     "C10-10": "the device under test did not support DeviceCommunicationControl; `dcc_values` added",
     "C10-12": "the seed's own trigger was closed by fix e0cdb7d (demo rebased); quiescence had no time bound: `half_open` added",
+    "C13-13": "foreign devices lived on a subnet of their own; a foreign device on the subnet of one BBMD registered with another added",
+    "C13-14": "the grace period was taken as the 30 s the standard allows, the BBMD grants 5: a one-second overshoot was inside the "
+              "slack; `foreign_age` measures the grace the BBMD lists and lets entries age next to one another",
+    "C11-13": "every live transaction was waiting for its first reply; allocation while one is in the middle of a segmented answer added",
+    "C11-14": "nothing looked at the server bit of an abort a client puts on the wire; `abort_direction` added",
     "C10-5": "no frame carried a source network; `routed_noise` (garbage claiming a remote source, then a relayed valid request) added",
 }
 
